@@ -4,10 +4,10 @@ import LexVerif.Proof.ParseNumberC11SepLoops
 
 `SepCfg c o` collects what the argument needs: release build with the `format` feature, the separator
 byte is not a digit and matches neither the decimal point, the exponent character nor the base prefix / suffix (all implied by
-a valid format with valid options, up to ASCII case folding of the exponent / suffix character), and the EXACT
-condition for the open defect "the exponent iterator tests look-ahead bytes with the mantissa radix":
-`digE` — if the exponent predicate can ask for a digit after the separator (i, il, ic, ilc), every mantissa-radix digit
-is an exponent-radix digit.
+a valid format with valid options, up to ASCII case folding of the exponent / prefix / suffix character).
+`ExpRadixOK c` is the EXACT condition for the open defect "the exponent iterator tests look-ahead bytes with the
+mantissa radix": if the exponent predicate can ask for a digit after the separator (i, il, ic, ilc), every
+mantissa-radix digit is an exponent-radix digit. It is needed for number results only.
 -/
 set_option linter.unusedSectionVars false
 set_option linter.unusedSimpArgs false
@@ -31,8 +31,6 @@ structure SepCfg (c : Cfg) (o : POpts) : Prop where
   sepE : ∀ x, c.isSep x = true → charToDigit x c.exponentRadix = none
   /-- `is_digit` of the skip iterators (always the mantissa radix) agrees with the digit test of the mantissa loops -/
   digM : ∀ x, c.isDigit x = true → charToDigit x c.mantissaRadix ≠ none
-  /-- exact exclusion of the open defect: an exponent predicate that looks for a digit needs mantissa digits ⊆ exponent digits -/
-  digE : DigitLook c .exponent → ∀ x, c.isDigit x = true → charToDigit x c.exponentRadix ≠ none
   /-- the separator is no other punctuation -/
   dpSep : c.isSep o.dp = false
   expSep : ∀ x, c.isSep x = true → matchByte o.exp (c.caseSensitiveExponent && c.feats.format) (some x) = false
@@ -40,6 +38,11 @@ structure SepCfg (c : Cfg) (o : POpts) : Prop where
   preSep : ∀ x, c.isSep x = true → matchByte c.basePrefix c.caseSensitiveBasePrefix (some x) = false
   /-- the decimal point is not a mantissa digit -/
   dpDig : charToDigit o.dp c.mantissaRadix = none
+
+/-- exact exclusion of the open defect: an exponent predicate that looks for a digit after the separator needs
+mantissa digits ⊆ exponent digits -/
+def ExpRadixOK (c : Cfg) : Prop :=
+  DigitLook c .exponent → ∀ x, c.isDigit x = true → charToDigit x c.exponentRadix ≠ none
 
 theorem cc_le_of_adv {c : Cfg} {b b' : Bytes} (h : Adv b b') :
     b'.currentCount c - b.currentCount c ≤ b'.index - b.index := by
